@@ -125,6 +125,11 @@ class IMUPreintegrator(nn.Module):
                 obj = obj[None, None, ...]
         return obj
 
+    @staticmethod
+    def _frame(state):
+        # a per-item state (B, H) gets the frame axis (B, 1, H) of the (B, F, H) increments
+        return state.unsqueeze(-2) if state.ndim == 2 else state
+
     def forward(self, dt, gyro, acc, rot:SO3=None, gyro_cov=None, acc_cov=None, init_state=None):
         r"""
         Propagate IMU states from duration (:math:`\delta t`), angular rate
@@ -366,7 +371,7 @@ class IMUPreintegrator(nn.Module):
         else:
             if init_rot is None:
                 init_rot = identity_SO3(B, 1, dtype=dt.dtype, device=dt.device)
-            inte_rot = init_rot * incre_r
+            inte_rot = self._frame(init_rot) * incre_r
             a = acc - inte_rot[:,1:,:].Inv() @ self.gravity
 
         dv = torch.zeros(B, 1, 3, dtype=dt.dtype, device=dt.device)
@@ -419,10 +424,11 @@ class IMUPreintegrator(nn.Module):
             ``vel``: velocity, each of which has a shape :math:`(B, F, H_{out})`, where
             :math:`H_{out}` is the signal dimension.
         """
+        rot, vel, pos = [cls._frame(init_state[k]) for k in ('rot', 'vel', 'pos')]
         return {
-            'rot': init_state['rot'] * integrate['Dr'],
-            'vel': init_state['vel'] + init_state['rot'] * integrate['Dv'],
-            'pos': init_state['pos'] + init_state['rot'] * integrate['Dp'] + init_state['vel'] * integrate['Dt'],
+            'rot': rot * integrate['Dr'],
+            'vel': vel + rot * integrate['Dv'],
+            'pos': pos + rot * integrate['Dp'] + vel * integrate['Dt'],
         }
 
     @classmethod
